@@ -142,6 +142,11 @@ func newInst(sys *sysDef, start int) *inst {
 	if k < len(c.expect) {
 		x.fail("RoaringBitmap.Add|wrong-result|pre-fill", fmt.Sprintf("Add(%s) = %v, want %v at value number %d of the pre-fill (%s)", hex(v), got, c.expect[k], k+1, sd.desc))
 	}
+	if atomic.LoadInt64(&nDead) > 0 && !x.dead {
+		if _, d := deadPaths.Load(x.pathKey()); d {
+			x.dead = true // this start state failed its battery
+		}
+	}
 	return x
 }
 
@@ -175,13 +180,20 @@ func secondBucket(variant int) (s uint32, fills []fill, desc string) {
 	return 2, nil, ""
 }
 
-func thresholdSystems(r *common.Run, pats []int, hfs []heightFn, depth int) []*sysDef {
+// thresholdSystems: depth 0 = to the fix-point (the alphabet has 8 values, so the reachable
+// space is finite: at most 2^8 membership patterns on top of the pre-fill, times the
+// representations and index shapes by which they can be reached).
+func thresholdSystems(r *common.Run, pats []int, sizes []int, hfs []heightFn, depth int) []*sysDef {
 	var out []*sysDef
 	for _, pi := range pats {
 		p := patterns[pi]
-		for _, n := range []int{4094, 4095, 4096, 4097} {
+		for _, n := range sizes {
 			for _, hf := range hfs {
-				sys := &sysDef{r: r, name: fmt.Sprintf("threshold/%s/n%d/%s", p.name, n, hf.name), hf: hf, maxDepth: depth}
+				fam := "threshold"
+				if depth == 0 {
+					fam = "threshold-fixpoint"
+				}
+				sys := &sysDef{r: r, name: fmt.Sprintf("%s/%s/n%d/%s", fam, p.name, n, hf.name), hf: hf, maxDepth: depth}
 				for variant := 0; variant < 3; variant++ {
 					s, fills, d := secondBucket(variant)
 					var vals, edge []uint32
@@ -242,6 +254,8 @@ func selfTest(r *common.Run) {
 	if bufOK {
 		canon.SkipFields["RoaringBitmap.buf"] = true
 	}
+	selfTesting = true
+	defer func() { selfTesting = false }()
 	sys := smallSystems(r)[1]
 	build := func() *inst {
 		x := newInst(sys, 0)
@@ -265,15 +279,14 @@ func selfTest(r *common.Run) {
 	}
 	// the canonical key must tell a sparse bucket from a dense one that holds the same values
 	noBuf := &space.Canonizer{SkipTypes: canon.SkipTypes, SkipFields: map[string]bool{"RoaringBitmap.buf": true}}
-	t0 := thresholdSystems(r, []int{patAsc}, heightFns[:1], 1)
-	sparse := newInst(t0[2], 0) // 4096 values
-	dense := newInst(t0[3], 0)  // 4097 values
+	t0 := thresholdSystems(r, []int{patAsc}, []int{threshold, threshold + 1}, heightFns[:1], 1)
+	sparse := newInst(t0[0], 0) // 4096 values
+	dense := newInst(t0[1], 0)  // 4097 values
 	last := uint32(dHigh)<<16 | patterns[patAsc].low(threshold)
 	dense.remove(last)
 	ds, dd := noBuf.Dump(&sparse.bm), noBuf.Dump(&dense.bm)
-	if ds == dd && !sparse.dead && !dense.dead {
-		common.Infra("the canonical dump does not distinguish a sparse from a dense bucket holding the same %d values", threshold)
-	}
+	// (recorded, not demanded: which representation a bucket has is the library's business; on the
+	// current tree a bucket that was dense stays dense, and the two dumps differ)
 	types := map[string]bool{}
 	for _, d := range []string{ds, dd} {
 		for _, part := range strings.Split(d, "iface(")[1:] {
@@ -309,12 +322,6 @@ func trunc(s string) string {
 // ---------------------------------------------------------------- main
 
 func search(r *common.Run, d *sysDef) space.Result {
-	if e := os.Getenv("C03_DEPTH"); e != "" && d.maxDepth > 0 {
-		fmt.Sscan(e, &d.maxDepth)
-	}
-	if e := os.Getenv("C03_ONLY"); e != "" && !strings.Contains(d.name, e) {
-		return space.Result{Name: d.name}
-	}
 	sys := space.System{
 		Name:     d.name,
 		Starts:   len(d.starts),
@@ -366,18 +373,24 @@ func main() {
 	results = append(results, runAll(r, small[1:], 1)...)
 
 	var defs []*sysDef
+	allPats, allSizes := []int{patAsc, patDesc, patEven, patAlpha}, []int{4094, 4095, 4096, 4097}
 	if r.Thorough() {
-		defs = append(defs, thresholdSystems(r, []int{patAsc, patDesc, patEven, patAlpha}, heightFns, 4)...)
-		defs = append(defs, drainSystems(r, []int{patAsc, patDesc, patEven, patAlpha}, heightFns, 5)...)
+		// two threshold systems to the fix-point (about 5 000 states / 80 000 transitions each) ...
+		defs = append(defs, thresholdSystems(r, []int{patAsc}, []int{4095}, heightFns[1:2], 0)...)
+		defs = append(defs, thresholdSystems(r, []int{patEven}, []int{4096}, heightFns[1:2], 0)...)
+		// ... and all of them to depth 4 under three tower-height functions
+		defs = append(defs, thresholdSystems(r, allPats, allSizes, heightFns, 4)...)
+		defs = append(defs, drainSystems(r, allPats, heightFns, 5)...)
 	} else {
-		defs = append(defs, thresholdSystems(r, []int{patAsc, patDesc, patEven, patAlpha}, heightFns[1:2], 3)...)
+		// quick: one tower-height function, depth 3; the drain family on two of the four patterns
+		defs = append(defs, thresholdSystems(r, allPats, allSizes, heightFns[1:2], 3)...)
 		defs = append(defs, drainSystems(r, []int{patAsc, patEven}, heightFns[1:2], 4)...)
 	}
 	results = append(results, runAll(r, defs, 16)...)
 
 	space.Summarize(r, results)
-	r.Cov("transitions_converting_sparse_to_dense", atomic.LoadInt64(&cConversions))
-	r.Cov("transitions_removing_the_last_value_of_a_bucket", atomic.LoadInt64(&cBucketsRemoved))
+	r.Cov("sparse_to_dense_conversions_executed_incl_replays", atomic.LoadInt64(&cConversions))
+	r.Cov("removals_of_the_last_value_of_a_bucket_executed_incl_replays", atomic.LoadInt64(&cBucketsRemoved))
 	r.Cov("battery_runs_on_states_with_a_dense_bucket", atomic.LoadInt64(&cDenseStates))
 	r.Cov("battery_runs_on_multi_bucket_states", atomic.LoadInt64(&cMultiStates))
 	r.SampleL("threshold start", map[string]any{"start_state": defs[0].starts[1].desc, "alphabet": hexes(defs[0].starts[1].vals)})
